@@ -58,6 +58,8 @@ contract("molecule.Molecule.generate",
          assumes=["len(self._elements) >= 1", "owner(self) == NOTATION and owner(self._elements) == NOTATION"],
          ensures=list(_MG), labels=_MG,
          ghost_on_return=["last_gen_mol = self", "last_gen_result = result"],
+         # the representation invariant after an element is the callee's own postcondition: its proof needs no other quantified fact
+         uses={"loop1:2": ["Stochastic.generate:returns-a-well-formed-molecule", "SmilesToken.generate:returns-a-well-formed-molecule"]},
          raises_may={"RuntimeError": "True", "ValueError": "True", "IndexError": "True", "TypeError": "True", "NotImplementedError": "True", "Exception": "True"},
          modifies=_MG_OWNED + _MG_GHOSTS,
          loops={1: dict(anchor="element in self._elements", locals={"my_mol": NRef("MolGen")},
